@@ -291,6 +291,9 @@ def linear(t):
             if n == "Neg" and len(a) == 1:
                 add(a[0], -k)
                 return
+            if n == "Div" and len(a) == 2 and a[1][0] == "const" and isinstance(a[1][1], (int, float)) and not isinstance(a[1][1], bool) and a[1][1] != 0:
+                add(a[0], k / a[1][1])
+                return
             if n == "Mul":
                 consts = [x for x in a if x[0] == "const" and isinstance(x[1], (int, float)) and not isinstance(x[1], bool)]
                 rest = [x for x in a if x not in consts]
@@ -299,6 +302,12 @@ def linear(t):
                     for x in consts:
                         kk *= x[1]
                     add(rest[0], kk)
+                    return
+                if consts and len(rest) > 1:
+                    kk = k
+                    for x in consts:
+                        kk *= x[1]
+                    add(simplify(("op", "Mul", tuple(rest))), kk)
                     return
         r = repr(term)
         if r in atoms:
